@@ -16,6 +16,7 @@ from __future__ import annotations
 
 import json
 import random
+import shutil
 
 from .. import common, tlc
 from ..drive import provsel as P
@@ -42,8 +43,8 @@ def _string_triples(strings, quick, rng):
     return out
 
 
-def _judge_string(rep, c):
-    g, r = P.string_case(c["expr"], c["place"], c["name"], c["list"], c["key"])
+def _judge_string(rep, c, work):
+    g, r = P.string_case(c["expr"], c["place"], c["name"], c["list"], c["key"], work)
     if c["registered"] == c["grammar"]:
         expected = g                      # the module: same provider, hence the same outcome
     else:                                 # a deviation clause left the string in the table
@@ -60,7 +61,9 @@ def run(rep):
     rng = random.Random(rep.seed)
     rep.rule = ("S->I: every configuration TLC enumerates (focus slot x subset of its four keys x grammar RREL yes/no "
                 "= 128; thorough: 2^9 key subsets x 2^4 RREL slot sets = 8192), four reference slots observed in each; "
-                "RREL strings: 9 expressions x 3 places x 12 names x single/list. Non-trivial: >= 2 registered keys or "
+                "RREL strings: 12 expressions (3 with +m:, a main model importing a second file) x 3 places x 17 names "
+                "(local, nested, imported, unknown) x single/list, each on a fresh metamodel as the first load after "
+                "registration. Non-trivial: >= 2 registered keys or "
                 "a grammar RREL; distinct by configuration content.")
     rep.assumptions = [
         "each key is bound to a provider that returns a definition named after the key and records the call; the "
@@ -89,8 +92,12 @@ def run(rep):
                      nontrivial=len(keys) >= 2 or bool(rrel),
                      why=f"keys {keys}, grammar RREL on {rrel}: references were resolved by {obs}, "
                          f"LoaderProvider.Provider selects {c['expected']}")
-    for c in _string_triples(strings, quick, rng):
-        _judge_string(rep, c)
+    work = tlc.scratch("vt-c32-")
+    try:
+        for c in _string_triples(strings, quick, rng):
+            _judge_string(rep, c, work)
+    finally:
+        shutil.rmtree(work, ignore_errors=True)
     rep.exhaustive = True
     rep.bounds["configurations"] = len(cases)
     rep.bounds["slots_observed"] = 4 * len(cases)
@@ -108,7 +115,11 @@ def replay(path):
         print("observed:", obs)
         print("expected:", expected)
         return 0 if common.canon(obs) == common.canon(expected) else 1
-    g, r = P.string_case(case["expr"], case["place"], case["name"], case["list"], case["key"])
+    work = tlc.scratch("vt-c32-")
+    try:
+        g, r = P.string_case(case["expr"], case["place"], case["name"], case["list"], case["key"], work)
+    finally:
+        shutil.rmtree(work, ignore_errors=True)
     print("expression", case["expr"], "registered under", case["key"], "reference", case["name"])
     print("in the grammar:", g)
     print("registered    :", r)
